@@ -36,6 +36,9 @@ type totReq struct {
 	Method core.B      `json:"method"`
 	Path   core.B      `json:"path"`
 	Hdr    [][2]string `json:"hdr,omitempty"`
+	URI    string      `json:"request_uri,omitempty"`    // RequestURI as the server would have recorded it ("" = the path): "*" (asterisk form), an absolute URI, junk. Routing is defined on the method and URL.Path
+	NoHdr  bool        `json:"nil_header_map,omitempty"` // the request has no header map at all (hand-built requests)
+	Host   string      `json:"host,omitempty"`
 }
 
 func init() {
@@ -127,6 +130,19 @@ func genTotCase(rng *rand.Rand) (*totCase, []string) {
 		rq := totReq{Method: core.B(m), Path: core.B(p)}
 		for k := rng.Intn(3); k > 0; k-- {
 			rq.Hdr = append(rq.Hdr, [2]string{[]string{"X-K", "X-K", "Accept", "Content-Type", "x-odd header", "", "X-Forwarded-For", "X-Real-Ip"}[rng.Intn(8)], []string{"v1", "1", "", "zz", ",", ", ,", " ", "1.2.3.4, 5.6.7.8", ":"}[rng.Intn(9)]})
+		}
+		if rng.Intn(10) == 0 {
+			rq.URI = []string{"*", "*", "http://other.example/abs?x=1", "\x00", "/other"}[rng.Intn(5)]
+			if rq.URI == "*" && rng.Intn(2) == 0 {
+				rq.Method = "OPTIONS"
+			}
+		}
+		if rng.Intn(10) == 0 {
+			rq.Host = []string{"example.com", "example.com:8080", "[::1]", " "}[rng.Intn(4)]
+			rq.NoHdr = rng.Intn(2) == 0
+			if rq.NoHdr {
+				rq.Hdr = nil
+			}
 		}
 		if i > 0 && rng.Intn(4) == 0 {
 			// the same path as an earlier request with other headers: outcomes must not depend on what was served before
@@ -285,7 +301,14 @@ func (ti *totInstance) serve(rq totReq) totObs {
 		if len(rq.Hdr)%2 == 1 {
 			u.RawPath = nonCanonicalEncoding(string(rq.Path), len(rq.Path)) // as a parsed request would carry; routing is defined on Path
 		}
-		ti.f.ServeHTTP(spy, &http.Request{Method: string(rq.Method), URL: u, Header: hdr, RequestURI: string(rq.Path)})
+		req := &http.Request{Method: string(rq.Method), URL: u, Header: hdr, RequestURI: string(rq.Path), Host: rq.Host}
+		if rq.URI != "" {
+			req.RequestURI = rq.URI
+		}
+		if rq.NoHdr && len(rq.Hdr) == 0 {
+			req.Header = nil
+		}
+		ti.f.ServeHTTP(spy, req)
 	}()
 	o.status, o.body = spy.status, string(spy.body)
 	return o
@@ -414,7 +437,7 @@ func judgeTotClasses(w *core.W, c *totCase, classes []string) {
 }
 
 func runC07(r *core.Run) {
-	r.Rule("valid route sets (1-8 routes of all kinds over 1-3 methods) x 30 hostile requests each: path classes {empty, slashes only, trailing slash, inner empty segments, bad escapes, non-UTF-8 / NUL, long (100-5000 segments or a 10^4-10^5 byte segment), random bytes, exact instance, near miss}; method tokens (the nine known, lower-case, empty, padded, NUL / non-UTF-8 bytes, BREW, 300 bytes; one request in twelve re-splits the bytes of method+path at another place); odd header sets; a quarter of the routes header-constrained and earlier paths re-requested with other header sets; default and custom not-found chain (one case in six with a later NotFound call that fails loudly and must leave the chain in force untouched); with and without application middleware; route handlers answering with the implicit 200 or one status from 201..999 (the request logger, installed in a quarter of the cases, reads it). Oracle: recover() around ServeHTTP, counting middleware (exactly one chain), the reference model for which chain, and equality of (chain, status, body, parameters) when the request is repeated on the same instance and on an identically rebuilt one that serves the request list in reverse order. non-trivial = distinct (route set, method class, path class, chain kind, not-found kind)")
+	r.Rule("valid route sets (1-8 routes of all kinds over 1-3 methods) x 30 hostile requests each: path classes {empty, slashes only, trailing slash, inner empty segments, bad escapes, non-UTF-8 / NUL, long (100-5000 segments or a 10^4-10^5 byte segment), random bytes, exact instance, near miss}; method tokens (the nine known, lower-case, empty, padded, NUL / non-UTF-8 bytes, BREW, 300 bytes; one request in twelve re-splits the bytes of method+path at another place); odd header sets, no header map at all, a Host, RequestURI in asterisk / absolute / junk form; a quarter of the routes header-constrained and earlier paths re-requested with other header sets; default and custom not-found chain (one case in six with a later NotFound call that fails loudly and must leave the chain in force untouched); with and without application middleware; route handlers answering with the implicit 200 or one status from 201..999 (the request logger, installed in a quarter of the cases, reads it). Oracle: recover() around ServeHTTP, counting middleware (exactly one chain), the reference model for which chain, and equality of (chain, status, body, parameters) when the request is repeated on the same instance and on an identically rebuilt one that serves the request list in reverse order. non-trivial = distinct (route set, method class, path class, chain kind, not-found kind)")
 	r.Assume("req.URL is non-nil (net/http's contract); handlers are deterministic and do not panic")
 	c07Canaries(r)
 	n := r.N(10000, 800000)
